@@ -251,6 +251,7 @@ class Case final : public sim::CaseBase {
     switch (consumer) {
       case kGet: {
         Res r = std::move(f).Get();
+        sim::ReuseDeadFrames();
         direct.calls = 1;
         direct.at = sim::Seq();
         direct.got = sim::Observe(r, "Get&&");
@@ -285,12 +286,14 @@ class Case final : public sim::CaseBase {
         sim::RaceRead(&payload_cell, sizeof payload_cell);
         seen_cell = payload_cell;
         const Res* again = std::as_const(f).Get();
+        sim::ReuseDeadFrames();
         if (again != r) {
           sim::Fail("READY_WENT_BACK", "Get() const& returned a result and then a different pointer");
         }
       } break;
       case kWaitTouch: {
         yaclib::Wait(f);
+        sim::ReuseDeadFrames();
         if (!f.Ready()) {
           sim::Fail("WAIT_NOT_READY", "Wait returned but Ready() is false");
         }
